@@ -93,6 +93,15 @@ def check(prop, tier, seed, out):
     seen = run_panic_matrix(plines, out)
     out.extra["panic_matrix"] = seen
     out.require("panic_scenarios_judged", seen["panic_observed"] + seen["deadlock"], 10)
+    # 2b. the start rendezvous through the real runner: one benchmark after another in one process, several thread counts per benchmark
+    # (the loop driver above builds a fresh context per run, the runner need not); a phase-order monitor inside the bodies that
+    # generate inputs, with the first pool thread's generator made slow
+    from . import treecheck
+    jobs = [j for j in treecheck.make_jobs("C15", "quick", seed + 800) if j[1].intent.action in ("bench", "test")]
+    jobs = jobs[:400 if tier == "quick" else 3000]
+    e2e, _, _ = treecheck.run_jobs(prop, jobs, out, want={prop})
+    out.extra["end_to_end"] = {"executions": e2e.get("executions", 0), "rounds_judged_on_two_or_more_threads": e2e.get("ord_rounds", 0)}
+    out.require("e2e_rounds_on_several_threads", e2e.get("ord_rounds", 0), 10)
     # 3. races: TSan on real threads, Miri on T=2
     sanit.c08_sanitizers(tier, seed, out)
     out.rule = ("(a) multi-thread loopdrv runs with one thread delayed >= 200us in the phase a missing barrier would expose, or seeded "
